@@ -631,6 +631,8 @@ structure Req where
   accept : List Bytes
   version : Bytes                -- Mcp-Protocol-Version header
   sess : SessRef
+  noSessionIds : Bool            -- the server's `ServerOptions.GetSessionID` returns "": a stateful handler then serves every
+                                 -- POST without a session id on an ephemeral session (`ephemeralConnectOpts`), like a stateless one
   lastEventId : Bool             -- a Last-Event-ID header is present
   limit : Int                    -- StreamableHTTPOptions.MaxRequestBodyBytes as configured
   bodyLen : Nat                  -- bytes the body reader delivers (before it ends or fails)
@@ -667,6 +669,12 @@ def bodyGate (r : Req) : Option Outcome :=
   if tooLarge r then some (rej 413)
   else if r.readFails then some (rej 400)
   else none
+
+/-- The gate's answer if it has one, else go on. -/
+def gateThen (g : Option Outcome) (k : Outcome) : Outcome :=
+  match g with
+  | some o => o
+  | none => k
 
 /-- DNS-rebinding gate shared by both handlers. -/
 def hostGateRejects (r : Req) : Bool :=
@@ -748,7 +756,13 @@ def serveStateful (c : B64) (r : Req) : Outcome :=
     else if !((streamableAccepts r.accept).1 && (streamableAccepts r.accept).2) then rej 400
     else match r.sess with
       | .unknown => rej 404
-      | _ => servePOST c false false r
+      | .known => servePOST c false false r
+      | .none =>
+        if r.noSessionIds then
+          -- ephemeral session: `ephemeralConnectOpts` reads the body first (REPAIRED behaviour, fix preflight-F30:
+          -- `*http.MaxBytesError` is answered 413 here too, as in `serveStateless`; the pinned tree answers 400)
+          gateThen (bodyGate r) (servePOST c false true r)
+        else servePOST c false false r
   | .other => .reject 405 none (some allowGetPostDelete)
 
 /-- `StreamableHTTPHandler.ServeHTTP`. -/
